@@ -134,13 +134,15 @@ def arrays_from(layout, uf, rng, freedom):
 
 def gen_layout(rng, max_complexes, max_strands, max_len):
     strands = []   # (start, length)
-    layout = []
+    layout = [" "] * rng.choice([0, 0, 0, 0, 0, 1, 2])     # a layout may open with separators
     for c in range(rng.randint(1, max_complexes)):
         if c:
-            layout += [" ", " "]
+            layout += [" ", " "] + [" "] * rng.choice([0, 0, 0, 1])
         for s in range(rng.randint(1, max_strands)):
             if s:
                 layout += [" "]
+            elif c == 0 and layout:
+                pass
             ln = rng.randint(1, max_len)
             strands.append((len(layout), ln))
             layout += ["x"] * ln
@@ -422,6 +424,9 @@ def run(st, tier, seed):
                 "sanitize": (not quick) or (i % 3 == 0)}
         if rng.random() < 0.25:
             case["start"] = gen_start(rng, *t)
+        if t[0][0] == " " or "   " in t[0] or len(t[0]) <= 2:
+            case["sanitize"] = True        # edge layouts (opening separator, triple separator, N <= 2) always run under the sanitizers
+            res.count("edge-layout")
         cases.append(case)
     # the generator itself must only emit consistent triples (independent statement of the contract)
     for c in cases:
